@@ -39,6 +39,7 @@ type Node struct {
 	Kids        []*Node
 	Raw         []byte
 	LenOverride []byte
+	Inner       *Node // primitive node whose content is the encoding of Inner (OCTET STRING wrapping BER)
 }
 
 func encLen(n int) []byte {
@@ -84,6 +85,8 @@ func (n *Node) Bytes() []byte {
 		for _, k := range n.Kids {
 			body = append(body, k.Bytes()...)
 		}
+	} else if n.Inner != nil {
+		body = n.Inner.Bytes()
 	} else {
 		body = n.Content
 	}
@@ -105,6 +108,9 @@ func (n *Node) Clone() *Node {
 	}
 	if n.LenOverride != nil {
 		c.LenOverride = append([]byte(nil), n.LenOverride...)
+	}
+	if n.Inner != nil {
+		c.Inner = n.Inner.Clone()
 	}
 	c.Kids = make([]*Node, len(n.Kids))
 	for i, k := range n.Kids {
@@ -143,11 +149,12 @@ func Bool(v bool) *Node {
 	}
 	return Prim(Universal, TagBoolean, []byte{0})
 }
-func Octet(s string) *Node       { return Prim(Universal, TagOctet, []byte(s)) }
-func Null() *Node                { return Prim(Universal, TagNull, nil) }
-func Seq(kids ...*Node) *Node    { return Cons(Universal, TagSequence, kids...) }
-func Set(kids ...*Node) *Node    { return Cons(Universal, TagSet, kids...) }
-func RawNode(b []byte) *Node     { return &Node{Raw: b} }
+func Octet(s string) *Node            { return Prim(Universal, TagOctet, []byte(s)) }
+func Null() *Node                     { return Prim(Universal, TagNull, nil) }
+func Seq(kids ...*Node) *Node         { return Cons(Universal, TagSequence, kids...) }
+func Set(kids ...*Node) *Node         { return Cons(Universal, TagSet, kids...) }
+func RawNode(b []byte) *Node          { return &Node{Raw: b} }
+func Wrap(inner *Node) *Node          { return &Node{Class: Universal, Tag: TagOctet, Inner: inner} }
 func CtxPrim(tag int, s string) *Node { return Prim(Context, tag, []byte(s)) }
 
 // ---- strict parser ----
@@ -279,6 +286,10 @@ func (n *Node) dump(sb *strings.Builder) {
 			k.dump(sb)
 		}
 		sb.WriteByte('}')
+	} else if n.Inner != nil {
+		fmt.Fprintf(sb, "%c%d<", c, n.Tag)
+		n.Inner.dump(sb)
+		sb.WriteByte('>')
 	} else {
 		fmt.Fprintf(sb, "%c%d:%s", c, n.Tag, hex.EncodeToString(n.Content))
 	}
